@@ -50,7 +50,7 @@ func classChars(re string) ([]int, bool) {
 	return out, true
 }
 
-func coqNList(xs []int) string {
+func coqNListHttpcfg(xs []int) string {
 	q := make([]string, len(xs))
 	for i, x := range xs {
 		q[i] = fmt.Sprint(x)
@@ -317,18 +317,18 @@ func genC25(g *gen) {
 		sepCodes = append(sepCodes, int(seps[i]))
 	}
 	g.line("Open Scope string_scope.")
-	g.line("Definition gen_dangerous_chars : list N := %s.", coqNList(chars))
+	g.line("Definition gen_dangerous_chars : list N := %s.", coqNListHttpcfg(chars))
 	g.line("Definition gen_dangerous_is_literal_class : bool := %s.", coqBool(okRe && okClass))
-	g.line("Definition gen_command_separators : list N := %s.", coqNList(sepCodes))
+	g.line("Definition gen_command_separators : list N := %s.", coqNListHttpcfg(sepCodes))
 	g.line("Definition gen_command_match_is_exact : bool := %s.", coqBool(cmdExact))
 	g.line("Definition gen_wildcard : string := %s.", coqString(wildcard))
-	g.line("Definition gen_arg_checks : list string := %s.", coqStrList(argOrder))
-	g.line("Definition gen_check_order : list string := %s.", coqStrList(order))
+	g.line("Definition gen_arg_checks : list string := %s.", coqStrListHttpcfg(argOrder))
+	g.line("Definition gen_check_order : list string := %s.", coqStrListHttpcfg(order))
 	g.line("Definition gen_acquire_one_critical_section : bool := %s.", coqBool(acqLocked && acqInc))
 	g.line("Definition gen_acquire_condition : string := %s.", coqString(acqCond))
 	g.line("Definition gen_release_one_critical_section : bool := %s.", coqBool(relLocked && relDec))
 	g.line("Definition gen_release_condition : string := %s.", coqString(relCond))
-	g.line("Definition gen_session_counter_writers : list string := %s.", coqStrList(ws))
+	g.line("Definition gen_session_counter_writers : list string := %s.", coqStrListHttpcfg(ws))
 	g.line("Definition gen_handler_release_sites : list (string * N) := [%s].", strings.Join(relItems, "; "))
 	g.line("Definition gen_release_guarded_by_released_flag : bool := %s.", coqBool(guardOK))
 	g.line("Definition gen_start_failure_releases_before_session_recorded : bool := %s.", coqBool(startFailBeforeRecord))
